@@ -160,6 +160,13 @@ fn token_field(tok: &str, k: &Cfg, alt: bool) -> (String, String) {
         "teTr" => s("TE", "trailers"),
         "teGz" => s("TE", "gzip"),
         "upg" => s("Upgrade", "foo/1"),
+        // the rest of the connection-specific names (RFC 9113 8.2.2, RFC 7540 3.2.1)
+        "pconn" => s("Proxy-Connection", if alt { "keep-alive" } else { "Keep-Alive" }),
+        "ka" => s("Keep-Alive", if alt { "timeout=5" } else { "timeout=5, max=100" }),
+        "h2s" => s("HTTP2-Settings", "AAMAAABkAAQCAAAAAAIAAAAA"),
+        "cUpg" => s("Connection", if alt { "Upgrade, HTTP2-Settings" } else { "upgrade,http2-settings" }),
+        // the request is sent with a chunked body on HTTP/1.1 (h1_exchange), as a literal field on HTTP/2
+        "tenc" => s("Transfer-Encoding", "chunked"),
         // trailers
         "tPlain" => s("X-T", "tv"),
         "tXri" => s("X-Real-IP", "6.6.6.7"),
@@ -174,6 +181,13 @@ fn token_field(tok: &str, k: &Cfg, alt: bool) -> (String, String) {
         "sts" => s("Strict-Transport-Security", "max-age=5"),
         "rcorr" => (k.corr().to_string(), "backend-corr".into()),
         "rClose" => s("Connection", "close"),
+        "rKA" => s("Keep-Alive", if alt { "timeout=5" } else { "timeout=5, max=100" }),
+        "rPconn" => s("Proxy-Connection", "keep-alive"),
+        "rUpg" => s("Upgrade", "foo/2"),
+        // the HTTP/1.1 backend answers with a chunked body (h1_backend_conn)
+        "rTenc" => s("Transfer-Encoding", "chunked"),
+        "rCHop" => s("Connection", if alt { "x-rhop" } else { "X-Rhop" }),
+        "rHop" => s("X-Rhop", "rhopv"),
         other => panic!("unknown token {other}"),
     }
 }
@@ -234,7 +248,15 @@ fn parse_xid(path: &str) -> Option<u64> {
 /// the header fields the backend is scripted to answer with (H1 spelling)
 fn scripted_response(sh: &Shared, id: u64) -> Vec<(String, String)> {
     let Some(case) = sh.cases.get((id / 4) as usize) else { return vec![] };
-    case.resp.iter().map(|t| token_field(t, &case.k, sh.alt(case, 77) % 2 == 1)).collect()
+    case.resp
+        .iter()
+        .enumerate()
+        .map(|(i, t)| {
+            let (n, v) = token_field(t, &case.k, sh.alt(case, 77) % 2 == 1);
+            // spelling of the name: canonical / lower / upper / alternating, by position
+            (vary_case(&n, sh.alt(case, 300 + i as u64 * 13) >> 3), v)
+        })
+        .collect()
 }
 
 // ---------------------------------------------------------------------------------------------
@@ -380,10 +402,16 @@ fn h1_backend_conn(sh: Arc<Shared>, s: TcpStream) {
         // After "Connection: close" the backend leaves the closing to sozu: closing here races with
         // sozu's connection reuse (a failed reuse marks the backend down and later requests get 503),
         // which is connection management (C02/C12), not header editing.
+        let mut chunked = false;
         for (n, v) in &scripted {
+            chunked |= n.eq_ignore_ascii_case("transfer-encoding");
             out.extend_from_slice(format!("{n}: {v}\r\n").as_bytes());
         }
-        out.extend_from_slice(b"Content-Length: 2\r\n\r\nok");
+        if chunked {
+            out.extend_from_slice(b"\r\n2\r\nok\r\n0\r\n\r\n");
+        } else {
+            out.extend_from_slice(b"Content-Length: 2\r\n\r\nok");
+        }
         if c.s.write_all(&out).is_err() {
             return;
         }
@@ -462,7 +490,7 @@ fn h2c_backend_conn(sh: Arc<Shared>, s: TcpStream) {
                 // A request converted from HTTP/1.1 without Content-Length arrives as HEADERS without
                 // END_STREAM and the stream is only ended later (request framing is C03's subject):
                 // answer as soon as the header block is complete unless the case carries trailers.
-                let expects_more = parse_xid(&st.path).and_then(|id| sh.cases.get((id / 4) as usize)).map(|c| !c.tr.is_empty()).unwrap_or(false);
+                let expects_more = parse_xid(&st.path).and_then(|id| sh.cases.get((id / 4) as usize)).map(|c| !c.tr.is_empty() || c.req.iter().any(|t| t == "tenc")).unwrap_or(false);
                 if es || (f.end_headers() && st.headers.is_some() && !expects_more) {
                     finished = Some(f.sid);
                 }
@@ -833,10 +861,18 @@ fn h1_exchange(sh: &Shared, lane: &mut H1Lane, addr: SocketAddr, case: &Case, at
     let (wire, canon) = build_fields(sh, case, &case.req, false, 100);
     let (twire, tcanon) = build_fields(sh, case, &case.tr, false, 200);
     let mut out = format!("GET {}x{} HTTP/1.1\r\nHost: localhost\r\n", case.k.prefix(), id).into_bytes();
+    // "tenc": the Transfer-Encoding field is written where the token stands (any spelling) and the body is chunked
+    let tenc = case.req.iter().any(|t| t == "tenc");
     for (n, v) in &wire {
         out.extend_from_slice(format!("{n}: {v}\r\n").as_bytes());
     }
-    if case.tr.is_empty() {
+    if tenc {
+        out.extend_from_slice(b"\r\n3\r\nabc\r\n0\r\n");
+        for (n, v) in &twire {
+            out.extend_from_slice(format!("{n}: {v}\r\n").as_bytes());
+        }
+        out.extend_from_slice(b"\r\n");
+    } else if case.tr.is_empty() {
         if std::env::var("C13_CL0").is_ok() {
             out.extend_from_slice(b"Content-Length: 0\r\n");
         }
@@ -852,8 +888,8 @@ fn h1_exchange(sh: &Shared, lane: &mut H1Lane, addr: SocketAddr, case: &Case, at
     // "CANNOT RECEIVE Headers ON THIS STREAM": an exchange-lifecycle matter outside C13, so those lanes
     // use one connection per case)
     let keep = !case.k.h2c_back
-        && !case.req.iter().any(|t| ["cClose", "cKA", "cHop", "upg", "teTr", "teGz"].contains(&t.as_str()))
-        && !case.resp.iter().any(|t| t == "rClose");
+        && !case.req.iter().any(|t| ["cClose", "cKA", "cHop", "cUpg", "upg", "h2s", "teTr", "teGz"].contains(&t.as_str()))
+        && !case.resp.iter().any(|t| ["rClose", "rCHop", "rUpg"].contains(&t.as_str()));
     let (c, truth) = lane.conn.as_mut().unwrap();
     let truth = truth.clone();
     let res = (|| -> Result<ClientSeen, String> {
@@ -1092,6 +1128,9 @@ fn compare_fields(
         .unwrap()
         .iter()
         .map(|e| (res.name(e["n"].as_str().unwrap()), res.value(&e["v"]), e["src"].as_str().unwrap().to_string()))
+        // framing fields are not compared on HTTP/1.1 legs (C03); on an HTTP/2 leg the spec never predicts one
+        // and an observed transfer-encoding was flagged above
+        .filter(|e| !FRAMING.contains(&e.0.as_str()))
         .collect();
     // 1. proxy / operator elements: anywhere, exactly once each
     for (n, v, src) in exp.iter().filter(|e| e.2 == "proxy" || e.2 == "op") {
